@@ -35,13 +35,14 @@ type Checker struct {
 	prop     string
 	MaxPaths int
 
-	mu       sync.Mutex
-	unrolled map[string]*unrollEntry
-	values   map[string][]string // obligation name -> get-value terms
-	nPaths   int64
-	nUnroll  int64
-	nCached  int64
-	nOver    int64
+	mu          sync.Mutex
+	unrolled    map[string]*unrollEntry
+	values      map[string][]string // obligation name -> get-value terms
+	nPaths      int64
+	nUnroll     int64
+	nCached     int64
+	nOver       int64
+	nSameAsBase int64
 }
 
 type unrollEntry struct {
@@ -57,6 +58,14 @@ type Unrolled struct {
 
 func NewChecker(env *core.Env, m *Machine, prop string) *Checker {
 	return &Checker{env: env, m: m, prop: prop, MaxPaths: 30000, unrolled: map[string]*unrollEntry{}, values: map[string][]string{}}
+}
+
+// dropChunk releases what is only needed while a chunk of sources is processed.
+func (cx *Checker) dropChunk() {
+	cx.mu.Lock()
+	cx.unrolled = map[string]*unrollEntry{}
+	cx.values = map[string][]string{}
+	cx.mu.Unlock()
 }
 
 func (cx *Checker) fn(method string) *ssa.Function {
@@ -349,9 +358,10 @@ func oneLine(s string) string { return strings.Join(strings.Fields(s), " ") }
 
 // C02: for the program compiled under the case's optimisation subset, every
 // variable bound:
-//   U-if-value : Eval(P_c) is a value  =>  U(src) is defined and equal
-//   U-if-AllOK : AllOK(src)            =>  Eval(P_c) = U(src)
-//   LR-if-value: Reordering off and LR(src) is a value => Eval(P_c) = LR(src)
+//
+//	U-if-value : Eval(P_c) is a value  =>  U(src) is defined and equal
+//	U-if-AllOK : AllOK(src)            =>  Eval(P_c) = U(src)
+//	LR-if-value: Reordering off and LR(src) is a value => Eval(P_c) = LR(src)
 func (cx *Checker) C02(c *Case, rels []string) []*core.Obl {
 	dom := &Domain{AllBound: true}
 	un := cx.Unroll(c.Prog, "Eval", dom)
@@ -469,11 +479,21 @@ func (cx *Checker) Trace(c *Case) []*core.Obl {
 	o := cx.newObl("trace", c)
 	cx.setMethod(o, "Eval")
 	dt, err := DumpTree(c.Prog)
+	note := ""
 	if err != nil {
-		o.Status = core.Refuted
-		o.Detail = err.Error()
-		o.Witness = fmt.Sprintf("src=%s cfg=%s: %v (dump: %s)", c.Text, c.Cfg, err, oneLine(c.Prog.Dump))
-		return []*core.Obl{o}
+		// the Dump text does not describe the program table. If it is readable at
+		// all, the relation is still checked against the tree it shows (fast marks
+		// taken structurally), so that a difference comes with a concrete binding.
+		d, perr := ParseSrc(c.Prog.Dump, false)
+		if perr != nil || !inAlphabet(d) {
+			o.Status = core.Refuted
+			o.Detail = err.Error()
+			o.Witness = fmt.Sprintf("src=%s cfg=%s: %v (dump: %s)", c.Text, c.Cfg, err, oneLine(c.Prog.Dump))
+			return []*core.Obl{o}
+		}
+		dt = PlainTree(d)
+		markFastStructurally(dt, c.Job.Mask&4 != 0)
+		note = "; NOTE: " + err.Error()
 	}
 	outs, trunc := EnumeratePaths(dom, cx.MaxPaths, func(r *Path) interface{} {
 		rr := cx.m.Exec(r, cx.m.Eval, c.Prog, nil)
@@ -506,7 +526,7 @@ func (cx *Checker) Trace(c *Case) []*core.Obl {
 			}
 		}
 	}
-	o.Detail = fmt.Sprintf("%d joint paths, %d nodes, dump %s", len(outs), len(c.Prog.Nodes), oneLine(c.Prog.Dump))
+	o.Detail = fmt.Sprintf("%d joint paths, %d nodes, dump %s%s", len(outs), len(c.Prog.Nodes), oneLine(c.Prog.Dump), note)
 	switch {
 	case trunc:
 		cx.overBudget(o)
@@ -520,6 +540,30 @@ func (cx *Checker) Trace(c *Case) []*core.Obl {
 }
 
 func trunc2(s string, n int) string { return trunc(s, n) }
+
+// inAlphabet: can the reference evaluate this tree (known operators only)?
+func inAlphabet(s *Src) bool {
+	ok := true
+	s.Walk(func(x *Src) {
+		if !x.IsLeaf() && x.Op != "if" && !Alpha.IsCustom(x.Op) && !IsBuiltinTerm(x.Op) {
+			ok = false
+		}
+		if x.Op == "if" && len(x.Kids) != 3 {
+			ok = false
+		}
+	})
+	return ok
+}
+
+func markFastStructurally(t *DTree, on bool) {
+	for _, k := range t.Kids {
+		markFastStructurally(k, on)
+	}
+	if on && !t.S.IsLeaf() && t.S.Op != "if" && len(t.Kids) == 2 && t.Kids[0].S.IsLeaf() && t.Kids[1].S.IsLeaf() {
+		t.Fast = true
+		t.Kids[0].Inlined, t.Kids[1].Inlined = true, true
+	}
+}
 
 // ---------------------------------------------------------------- joint unrollings
 
@@ -861,20 +905,21 @@ func orNil(xs ...*T) *T {
 }
 
 type evOut struct {
-	rr                     *RunResult
-	opexec, intact, loop   *T // nil: agrees syntactically; else condition of disagreement
-	wOp, wIntact, wLoop    string
+	rr                   *RunResult
+	opexec, intact, loop *T // nil: agrees syntactically; else condition of disagreement
+	wOp, wIntact, wLoop  string
 }
 
 // Events: the ghost log of sends on EventChan of the real Eval against the
 // reference evaluation of the Dump tree on the same path:
-//   ev-opexec : OP_EXEC events, in order = operator applications of the reference:
-//               name, fast flag, arguments as they were at call time, result, error
-//   ev-params : the Params slice of each OP_EXEC event, READ FROM THE FINAL HEAP
-//               at the end of the evaluation, still holds the arguments of that call
-//   ev-loop   : LOOP events: strictly increasing CurtIdx = the reference's node
-//               visits; Stack = the reference operand stack at that step, both at
-//               send time and in the final heap (private snapshot)
+//
+//	ev-opexec : OP_EXEC events, in order = operator applications of the reference:
+//	            name, fast flag, arguments as they were at call time, result, error
+//	ev-params : the Params slice of each OP_EXEC event, READ FROM THE FINAL HEAP
+//	            at the end of the evaluation, still holds the arguments of that call
+//	ev-loop   : LOOP events: strictly increasing CurtIdx = the reference's node
+//	            visits; Stack = the reference operand stack at that step, both at
+//	            send time and in the final heap (private snapshot)
 func (cx *Checker) Events(c *Case) []*core.Obl {
 	dom := &Domain{}
 	mk := func(rel string) *core.Obl { o := cx.newObl(rel, c); cx.setMethod(o, "Eval"); return o }
@@ -1026,9 +1071,10 @@ func bareScalar(p *XProg) bool {
 
 // Redump: the driver dumps P, recompiles the text unoptimised under the same
 // names and dumps again:
-//   redump-compiles: recompilation succeeds unless P is a bare scalar constant
-//   redump-text    : the second Dump equals the first
-//   redump-eval    : Eval(P) = Eval(P_recompiled) for all bindings of all variables
+//
+//	redump-compiles: recompilation succeeds unless P is a bare scalar constant
+//	redump-text    : the second Dump equals the first
+//	redump-eval    : Eval(P) = Eval(P_recompiled) for all bindings of all variables
 func (cx *Checker) Redump(c *Case) []*core.Obl {
 	oc, ot := cx.newObl("redump-compiles", c), cx.newObl("redump-text", c)
 	re := c.Prog.Re
